@@ -1,3 +1,3 @@
-CONSTANT OverlapGroups = {{"OvA", "OvB"}}
+CONSTANT OverlapGroups = {{"OvA", "OvB"}, {"OvB", "OvC"}}
 SPECIFICATION TSpec
 CHECK_DEADLOCK FALSE
